@@ -556,7 +556,10 @@ def approx_penetrance_test(
     # the next best approximations (failing out any genes
     # that are in violation of q1_min_th and qdiff_min_th
     if absolutely_valid.sum() >= n_valid:
-        valid = absolutely_valid
+        valid = np.copy(absolutely_valid)
+        # genes within eps of the strict thresholds can still lie
+        # below one of the minimum thresholds
+        valid[distances['invalid']] = False
     else:
 
         qdiff_dex = np.argsort(qdiff_dist)
